@@ -23,6 +23,11 @@ CLAIMED = {
    note="trusted: 'fresh object' model = same constructor arguments, thread count and replayed rebuilds; emin coarsening only at nt=1 (its critical accumulation is schedule dependent, see C09); LGMRES with always_reset=false is exercised but excluded from the equality oracle as documented",
    technique="deterministic simulation: seeded operation/fault scripts against a fresh-object reference model, bitwise history-independence oracle",
    replay="./build/plain/c15 --replay {path}"),
+ "C03": dict(cat="exploration", ref="4 (C03)",
+   text="History exploration over rebuild() sequences through the library's own policy seam: a recording coarsening policy and a recording relaxation policy log (A, P, R, A_c) of every level at construction and at every rebuild; invariants (Galerkin identity with the float over-interpolation factor against a dense long-double model, R = P^T, strictly decreasing sizes, coarsest-level solver choice) are checked after construction and after every rebuild; the history oracle compares the rebuilt hierarchy's action bitwise with a fresh hierarchy assembled from A' by a replaying policy that hands out the recorded P/R, and rebuild(A0) must restore the original action; both SpGEMM algorithms are reached through simulated thread counts <=16 and >=17; wrong-sized rebuilds are the injected failing calls. Sampling of inputs and histories.",
+   note="trusted: the dense long-double product as reference; smoother fixed to SPAI-0 (the relaxation does not enter the level matrices); Galerkin check on levels with <=160 rows",
+   technique="deterministic simulation: seeded rebuild histories with failing calls, recording/replaying policy seam, fresh-object reference model + dense Galerkin invariant",
+   replay="./build/plain/c03 --replay {path}"),
 }
 NA_PURE = {
  "C04": "pure function of (matrix, parameters): aggregation is a serial greedy loop, its parallel loops are statically partitioned without reductions; no schedule, fault or history can change the result (thread-count independence of the operators is exercised under C09)",
